@@ -246,7 +246,109 @@ def _make_extract(k):
     return t
 
 
-TRANSFORMS = {"rename-locals": t_rename_locals, "negate-if": t_negate_if, "temp-test": t_temp_test, "early-return": t_early_return, "split-and": t_split_and}
+def _rewrite_blocks(m, fix):
+    """apply fix(list of statements) -> list to every statement list of m (not entering nested defs)"""
+    def go(block):
+        out = []
+        for s in block:
+            if not isinstance(s, (ast.FunctionDef, ast.AsyncFunctionDef, ast.ClassDef)):
+                for field in ("body", "orelse", "finalbody"):
+                    sub = getattr(s, field, None)
+                    if isinstance(sub, list) and sub and isinstance(sub[0], ast.stmt):
+                        setattr(s, field, go(sub))
+                if isinstance(s, ast.Try):
+                    for h in s.handlers:
+                        h.body = go(h.body)
+            out.append(s)
+        return fix(out)
+    m.body = go(m.body)
+    ast.fix_missing_locations(m)
+    return m
+
+
+def t_ifexp_assign(fn):
+    """if c: x = A / else: x = B  ->  x = A if c else B"""
+    m = clone(fn)
+    changed = [0]
+
+    def fix(block):
+        out = []
+        for s in block:
+            if isinstance(s, ast.If) and len(s.body) == 1 and len(s.orelse) == 1 and all(isinstance(b, ast.Assign) and len(b.targets) == 1 and isinstance(b.targets[0], ast.Name) for b in (s.body[0], s.orelse[0])) \
+                    and s.body[0].targets[0].id == s.orelse[0].targets[0].id and not any(isinstance(x, (ast.Await, ast.Yield, ast.NamedExpr)) for b in (s.body[0], s.orelse[0]) for x in ast.walk(b)):
+                changed[0] += 1
+                out.append(ast.copy_location(ast.Assign(targets=[s.body[0].targets[0]], value=ast.IfExp(test=s.test, body=s.body[0].value, orelse=s.orelse[0].value), lineno=s.lineno), s))
+            else:
+                out.append(s)
+        return out
+
+    _rewrite_blocks(m, fix)
+    return m if changed[0] else None
+
+
+def t_split_handlers(fn):
+    """except (A, B): BODY  ->  except A: BODY / except B: BODY"""
+    m = clone(fn)
+    changed = [0]
+    for t in [x for x in ast.walk(m) if isinstance(x, ast.Try)]:
+        new = []
+        for h in t.handlers:
+            if isinstance(h.type, ast.Tuple) and h.name is None and len(h.type.elts) > 1:
+                changed[0] += 1
+                for e in h.type.elts:
+                    new.append(ast.copy_location(ast.ExceptHandler(type=e, name=None, body=clone_list(h.body)), h))
+            else:
+                new.append(h)
+        t.handlers = new
+    ast.fix_missing_locations(m)
+    return m if changed[0] else None
+
+
+def clone_list(stmts):
+    import copy
+    return [copy.deepcopy(s) for s in stmts]
+
+
+def t_de_morgan(fn):
+    """if a and b  ->  if not (not a or not b)   (tests of if statements only; same evaluation order and short-circuit)"""
+    m = clone(fn)
+    changed = [0]
+
+    class R(ast.NodeTransformer):
+        def visit_If(self, node):
+            self.generic_visit(node)
+            t = node.test
+            if isinstance(t, ast.BoolOp) and isinstance(t.op, ast.And) and not any(isinstance(x, ast.NamedExpr) for x in ast.walk(t)):
+                changed[0] += 1
+                node.test = ast.UnaryOp(op=ast.Not(), operand=ast.BoolOp(op=ast.Or(), values=[ast.UnaryOp(op=ast.Not(), operand=v) for v in t.values]))
+            return node
+
+        def _skip(self, node):
+            return node
+
+        visit_FunctionDef = _skip
+        visit_AsyncFunctionDef = _skip
+
+    m.body = [R().visit(s) for s in m.body]
+    ast.fix_missing_locations(m)
+    return m if changed[0] else None
+
+
+def t_guard_continue(fn):
+    """for …: if c: BODY   (the if is the loop's last statement, no else)  ->  for …: if not c: continue; BODY"""
+    m = clone(fn)
+    changed = [0]
+    for lp in [x for x in ast.walk(m) if isinstance(x, (ast.For, ast.AsyncFor, ast.While))]:
+        if lp.body and isinstance(lp.body[-1], ast.If) and not lp.body[-1].orelse and not any(isinstance(x, ast.NamedExpr) for x in ast.walk(lp.body[-1].test)):
+            last = lp.body[-1]
+            guard = ast.copy_location(ast.If(test=ast.UnaryOp(op=ast.Not(), operand=last.test), body=[ast.copy_location(ast.Continue(), last)], orelse=[]), last)
+            lp.body = lp.body[:-1] + [guard] + last.body
+            changed[0] += 1
+    ast.fix_missing_locations(m)
+    return m if changed[0] else None
+
+
+TRANSFORMS = {"ifexp-assign": t_ifexp_assign, "split-handlers": t_split_handlers, "de-morgan": t_de_morgan, "guard-continue": t_guard_continue, "rename-locals": t_rename_locals, "negate-if": t_negate_if, "temp-test": t_temp_test, "early-return": t_early_return, "split-and": t_split_and}
 for _k in range(6):
     TRANSFORMS[f"extract-closure-{_k}"] = _make_extract(_k)
 _PROGRAM = None
